@@ -54,6 +54,9 @@ def stopper_events(losses, maxlen, ps, atols, rtols, modes=("jit",)):
 
 # ---- complete runs ------------------------------------------------------------------
 
+COEF0 = [0.3, -0.2]       # the optimisation starts away from zero
+
+
 def build_model(n, seed):
     import tensorflow_probability.substrates.jax.distributions as tfd
 
@@ -62,7 +65,7 @@ def build_model(n, seed):
     rng = np.random.default_rng(seed)
     x = rng.normal(size=n).astype(np.float32)
     y = (0.5 + 1.2 * x + rng.normal(size=n)).astype(np.float32)
-    coef = lsl.param(jnp.zeros(2, jnp.float32), lsl.Dist(tfd.Normal, loc=0.0, scale=10.0), name="coef")
+    coef = lsl.param(jnp.asarray(COEF0, jnp.float32), lsl.Dist(tfd.Normal, loc=0.0, scale=10.0), name="coef")
     xvar = lsl.obs(jnp.c_[jnp.ones_like(x), x], name="x")
     mu = lsl.Var(lsl.Calc(jnp.dot, xvar, coef), name="mu")
     yvar = lsl.obs(jnp.asarray(y), lsl.Dist(tfd.Normal, loc=mu, scale=1.0), name="y")
@@ -70,7 +73,8 @@ def build_model(n, seed):
 
 
 def one_run(n=10, batch_size=None, batch_seed=3, max_iter=40, patience=5, atol=1e-3, rtol=0.0,
-            validation=True, restore=True, prune=True, lr=0.05, seed=0):
+            validation=True, restore=True, prune=True, lr=0.05, seed=0, reuse_stopper=False):
+    """reuse_stopper: the Stopper object was used before, in a call without a validation model"""
     import optax
 
     import liesel.goose as gs
@@ -81,7 +85,7 @@ def one_run(n=10, batch_size=None, batch_seed=3, max_iter=40, patience=5, atol=1
           "rtol": fstr(rtol), "restore": restore, "prune": prune}
     hdr = {"kind": "run", "kwargs": dict(n=n, batch_size=batch_size, batch_seed=batch_seed, max_iter=max_iter,
                                          patience=patience, atol=atol, rtol=rtol, validation=validation,
-                                         restore=restore, prune=prune, lr=lr, seed=seed)}
+                                         restore=restore, prune=prune, lr=lr, seed=seed, reuse_stopper=reuse_stopper)}
     fd, path = tempfile.mkstemp(suffix=".ndjson")
     os.close(fd)
     try:
@@ -89,8 +93,14 @@ def one_run(n=10, batch_size=None, batch_seed=3, max_iter=40, patience=5, atol=1
         os.environ["LIESEL_VERIF_TRACE"] = path
         model = build_model(n, seed)
         mval = build_model(max(4, n // 2), seed + 100) if validation else None
+        stopper = Stopper(max_iter=max_iter, patience=patience, atol=atol, rtol=rtol)
+        if reuse_stopper:
+            optim_flat(build_model(n, seed + 7), ["coef"], optimizer=optax.adam(lr), stopper=stopper, progress_bar=False)
+            ev["stopper_patience_after_first_use"] = int(stopper.patience)
+            os.environ["LIESEL_VERIF_TRACE"] = path
+            open(path, "w").close()
         res = optim_flat(model, ["coef"], optimizer=optax.adam(lr),
-                         stopper=Stopper(max_iter=max_iter, patience=patience, atol=atol, rtol=rtol),
+                         stopper=stopper,
                          batch_size=batch_size, batch_seed=batch_seed, model_validation=mval,
                          restore_best_position=restore, prune_history=prune, progress_bar=False)
         jax.effects_barrier()
@@ -111,6 +121,7 @@ def one_run(n=10, batch_size=None, batch_seed=3, max_iter=40, patience=5, atol=1
         ev["nan_from"] = nan_from
         ev["position"] = [fstr(x) for x in np.asarray(res.position["coef"], np.float32)]
         ev["hist_position"] = [[fstr(x) for x in row] for row in hp[: it + 1]]
+        ev["start_position"] = [fstr(np.float32(x)) for x in COEF0]
         # model state vs position: recompute through the driver's own interface on a fresh model
         iface = gs.LieselInterface(build_model(n, seed))
         ref = iface.update_state(res.position, build_model(n, seed).state)
@@ -148,6 +159,7 @@ def one_run(n=10, batch_size=None, batch_seed=3, max_iter=40, patience=5, atol=1
 def run_jobs_list(quick=True):
     jobs = [
         dict(n=10, batch_size=3, max_iter=45, patience=5, validation=True),          # 3 does not divide 10
+        dict(n=10, batch_size=None, max_iter=60, patience=5, validation=True, reuse_stopper=True),
         dict(n=12, batch_size=5, max_iter=40, patience=40, validation=False),         # no early stopping, >= 30 its
         dict(n=10, batch_size=None, max_iter=30, patience=4, atol=0.5, validation=True),
         dict(n=9, batch_size=4, max_iter=25, patience=3, rtol=0.05, atol=0.0, validation=True, prune=False),
